@@ -203,7 +203,10 @@ def build_obligation(ob, bdir, witness=False, extra_defs=()):
             rm = list(remove)
         udefs = defs + list(d.get("unit_defs", {}).get(u, []))
         objs.append(build_unit(bdir, src, udefs, quiet, rm))
-    for m in d.get("models", []):
+    models = list(d.get("models", []))
+    if d.get("io_stubs", True) and "models/io_stubs.c" not in models:
+        models.append("models/io_stubs.c")
+    for m in models:
         objs.append(build_unit(bdir, os.path.join(VERIF, m), defs, quiet, ()))
     hdefs = defs + list(extra_defs) + (["-DWITNESS"] if witness else [])
     hsrc = os.path.join(VERIF, d["harness"])
@@ -370,6 +373,11 @@ def run_obligation(ob, bdir, logdir):
                 "solver_wall_s": r.get("wall_s"), "solver_s": r.get("solver_s"), "rss_mb": r.get("rss_mb"),
                 "sat_vars": r.get("sat_vars"), "sat_clauses": r.get("sat_clauses"),
                 "violated": r.get("violated"), "log": r.get("log"), "cmd": r.get("cmd")})
+    if rec["verdict"] == "FAIL" and "unwinding assertion" in ((rec.get("violated") or {}).get("description") or "") \
+            and not d.get("unwind_is_violation", False):
+        rec["verdict"] = "INCONCLUSIVE"
+        rec["reason"] = "unwinding bound too small for %s:%s (harness bound, not a property violation)" % (
+            rec["violated"].get("function"), rec["violated"].get("line"))
     allowed = set(d.get("allow_nobody", []))
     bad = [f for f in r.get("nobody", []) if f not in allowed]
     if bad and rec["verdict"] == "HOLDS":
